@@ -70,6 +70,7 @@ abbrev Mech := List Bytes → StepRes
 inductive Err
   | none | nomech | unexpected | saslFailure | b64 | authnErr | mechErr | eof | terminated
   | notCalled   -- the element never reached the feature (rejected by the feature dispatch)
+  | writeErr    -- writing to the connection failed
   deriving DecidableEq, Repr, Inhabited
 
 def Err.toString : Err → String
@@ -77,6 +78,7 @@ def Err.toString : Err → String
   | .saslFailure => "saslfailure" | .b64 => "b64" | .authnErr => "authnerr"
   | .mechErr => "mecherr" | .eof => "eof" | .terminated => "terminated"
   | .notCalled => "notcalled"
+  | .writeErr => "write"
 
 /-! ## initiating side -/
 
@@ -276,6 +278,28 @@ def serverSession (cfg : List (String × Mech)) : List SEv → SRes
   | .space :: _ => { err := .notCalled, consumed := 1 }
   | .otherNs :: _ => { err := .notCalled, consumed := 1 }
   | peer => serverNeg cfg peer
+
+/-- `negotiateServer` on a connection that accepts `budget` more SASL elements and then
+fails every write: every element is flushed when it is written (`sendSASLError`, the
+challenge, and — since the repair — `<success/>`), and a failed flush ends the exchange
+with that error, without the `Authn` bit. -/
+def serverLoopW (cfg : List (String × Mech)) : Option SCur → Nat → List SEv → SRes
+  | cur, _, [] => { err := .eof, used := cur.map (·.name), hist := (cur.map (·.hist)).getD [] }
+  | cur, budget, ev :: rest =>
+    match sevent cfg cur ev with
+    | .stop r =>
+      if r.sent.length ≤ budget then r
+      else { r with authn := false, err := .writeErr, sent := [] }
+    | .cont c resp perms =>
+      match budget with
+      | 0 => { err := .writeErr, perms := perms, consumed := 1, used := some c.name, hist := c.hist }
+      | b + 1 => (serverLoopW cfg (some c) b rest).after [.challenge resp] perms
+
+def serverSessionW (cfg : List (String × Mech)) (budget : Nat) : List SEv → SRes
+  | [] => { err := .notCalled }
+  | .space :: _ => { err := .notCalled, consumed := 1 }
+  | .otherNs :: _ => { err := .notCalled, consumed := 1 }
+  | peer => serverLoopW cfg none budget peer
 
 /-! ## `sasl.Plain` on the receiving side, with the permission callback -/
 
